@@ -486,7 +486,7 @@ def _str_source(v: Any) -> Any:
     return v
 
 
-def equality(ctx: Ctx, I: Interp) -> None:
+def equality(ctx: Ctx, I: Interp) -> str:
     prog = ctx.prog
     for cls, kind in (("Tag", "TAG"), ("TagList", "TAGLIST"), ("HTMLDependency", "HTMLDEP")):
         where = f"{CORE}:{cls}.__eq__"
@@ -543,7 +543,7 @@ def equality(ctx: Ctx, I: Interp) -> None:
                       f"compares {sorted(compared)}; fields {sorted(fields)}",
                       f"{cls}.__eq__ can return a non-False result without comparing {missing}: objects that differ only there compare equal",
                       witness="div('x', _add_ws=False) == div('x')" if "add_ws" in missing else None)
-    _equals_impl_obligations(ctx, I)
+    return _equals_impl_obligations(ctx, I)
 
 
 
@@ -640,7 +640,7 @@ def _init_fields(ctx: Ctx, I: Interp, cls: str) -> List[str]:
     return out
 
 
-def _equals_impl_obligations(ctx: Ctx, I: Interp) -> None:
+def _equals_impl_obligations(ctx: Ctx, I: Interp) -> str:
     prog = ctx.prog
     where = f"{CORE}:_equals_impl"
     fn = prog.function(CORE, "_equals_impl")
@@ -656,6 +656,7 @@ def _equals_impl_obligations(ctx: Ctx, I: Interp) -> None:
     cfg = Config()
     cfg.loop_effects = False
     got_type_false = got_true = got_neq = False
+    dict_form = False
     for l in I.run_function(CORE, "_equals_impl", mk, cfg):
         x, y = l.run.__dict__["o"]
         ty = [v for a, v in l.atoms if isinstance(a, tuple) and a[0] == "isinstance-type-of"]
@@ -669,6 +670,23 @@ def _equals_impl_obligations(ctx: Ctx, I: Interp) -> None:
                      witness="div() == 'x'")
             continue
         loops = l.run.loops
+        if not loops:
+            # `x.__dict__ == y.__dict__`: every instance field of both objects takes part (stricter than the loop over x's keys)
+            rest0 = [(a, v) for a, v in l.atoms if not (isinstance(a, tuple) and a[0] == "isinstance-type-of")]
+            okd = False
+            if len(rest0) == 1 and isinstance(rest0[0][0], tuple) and rest0[0][0][0] == "eq" and len(rest0[0][0]) == 3:
+                a_, b_ = rest0[0][0][1], rest0[0][0][2]
+                a_ = a_.v if isinstance(a_, _K) else a_
+                b_ = b_.v if isinstance(b_, _K) else b_
+                owners = [getattr(d_, "__dict__", {}).get("fields_of") for d_ in (a_, b_)]
+                okd = isinstance(a_, SDict) and isinstance(b_, SDict) and {id(o_) for o_ in owners} == {id(x), id(y)} \
+                    and l.kind == "return" and l.value is rest0[0][1]
+            ctx.require(okd, "_equals_impl: expected one loop over the fields")
+            dict_form = True
+            got_true = got_true or l.value is True
+            got_neq = got_neq or l.value is False
+            ctx.check(True, "C08.eq", "the instance dictionaries are compared as a whole", where, f"returns x.__dict__ == y.__dict__ ({l.value})", "")
+            continue
         ctx.require(len(loops) == 1, "_equals_impl: expected one loop over the fields")
         it = loops[0].iter_value
         d = getattr(it, "iter_descr", None)
@@ -700,9 +718,10 @@ def _equals_impl_obligations(ctx: Ctx, I: Interp) -> None:
             ctx.fail("C08.eq", where, f"path returns {short(l.value)}", "_equals_impl returns a non-boolean / raises")
     ctx.check(got_type_false and got_true and got_neq, "C08.eq", "_equals_impl has the three outcomes (other kind / field differs / all equal)", where,
               f"type-false={got_type_false} true={got_true} neq={got_neq}", "_equals_impl lacks one of: different kind -> False, differing field -> False, else True")
+    return "dict" if dict_form else "loop"
 
 
-def transient_fields(ctx: Ctx, I: Interp) -> None:
+def transient_fields(ctx: Ctx, I: Interp, eq_form: str = "loop") -> None:
     """C08.6: a field that __init__ sets to a constant and another method overwrites must be reset when the block ends."""
     prog = ctx.prog
     ci = prog.get_class("Tag")
@@ -726,6 +745,31 @@ def transient_fields(ctx: Ctx, I: Interp) -> None:
                 for tt in (t.elts if isinstance(t, ast.Tuple) else [t]):
                     if isinstance(tt, ast.Attribute) and isinstance(tt.value, ast.Name) and tt.value.id == fn.args.args[0].arg and tt.attr in trans:
                         writers.setdefault(tt.attr, []).append(mn)
+    if eq_form == "dict":
+        # == compares the instance dictionaries directly: a field that lives on the class (absent from a fresh tag's __dict__)
+        # and is assigned on the instance by a method makes a used tag differ from the same tag built directly, unless the key is
+        # deleted again when the block ends
+        for f, e in ci.class_consts.items():
+            if f in trans or f in ci.methods or not isinstance(e, ast.Constant):
+                continue
+            ws = []
+            dels = []
+            for mn, fn in ci.methods.items():
+                if mn == "__init__":
+                    continue
+                for st in ast.walk(fn):
+                    if isinstance(st, ast.Attribute) and st.attr == f and isinstance(st.value, ast.Name) and st.value.id == fn.args.args[0].arg:
+                        if isinstance(st.ctx, ast.Store):
+                            ws.append(mn)
+                        elif isinstance(st.ctx, ast.Del):
+                            dels.append(mn)
+            if ws:
+                ctx.check("__exit__" in dels and "__exit__" not in ws, "C08.transient",
+                          f"Tag.{f} (a class-level default) is absent from the instance dictionary again when a `with` block has ended",
+                          f"{CORE}:Tag.{sorted(set(ws))[-1]}", f"self.{f} assigned in {sorted(set(ws))}, deleted in {sorted(set(dels))}",
+                          f"Tag.{f} is a class-level default (not in a fresh tag's __dict__) but {sorted(set(ws))} assign it on the instance and "
+                          f"_equals_impl compares x.__dict__ == y.__dict__: a tag that has been used as a context manager never equals the same "
+                          f"tag built directly", witness="a = div('x')\nwith a: pass\na == div('x')")
     for f, const in trans.items():
         ws = sorted(set(writers.get(f, [])))
         if not ws:
@@ -785,8 +829,8 @@ def check(ctx: Ctx) -> None:
     copy_field_kinds(ctx, I, cls="HTMLDocument", kind="HTMLDOC", fields=(("_content", "TAGLIST"), ("_html_attr_args", "DICT")))
     render_uses_copy(ctx, I)
     delegation(ctx, I)
-    equality(ctx, I)
-    transient_fields(ctx, I)
+    eq_form = equality(ctx, I)
+    transient_fields(ctx, I, eq_form)
     # JSXTag.tagify(): the per-node table of its visitor (every mutable node copied or expanded, metadata nodes included);
     # the ownership part of the JSX conversion stays with C20
     from .c20 import visitor_table, walker_coverage
